@@ -447,7 +447,7 @@ pub fn gen_udp_plan_for(g: &mut Gen, thorough: bool, max_payload: usize, edge: O
     let mut targets = Vec::new();
     for t in 0..n_targets {
         let name = if g.chance(40) { Some(format!("u{t}-{}.udp.test", g.range(0, 999))) } else { None };
-        targets.push(UdpTarget { ip: [127, 0, 9, 1 + t as u8], port: g.range(1024, 39_999) as u16, name, replies: *g.pick(&[0usize, 1, 1, 1, 2]), reply_size: match edge { Some(e) if g.chance(30) => (e + 70).saturating_sub(g.range(0, 90) as usize), _ => *g.pick(&[9usize, 16, 100, 1200, 1472, 4000]) } });
+        targets.push(UdpTarget { ip: [127, 0, 9, 1 + t as u8], port: g.range(1024, 39_999) as u16, name, replies: *g.pick(&[0usize, 1, 1, 1, 2]), reply_size: match edge { Some(e) if g.chance(30) => (e + 70).saturating_sub(g.range(0, 90) as usize), _ => *g.pick(&[9usize, 16, 100, 1200, 1472, 4000, 4000, 16383, 16384, 20000, 40000]) } });
     }
     if n_targets >= 2 && g.chance(35) {
         // the same host (name and address) on another port is another target
